@@ -15,3 +15,4 @@ import Babble.Props.C16
 import Babble.Props.C17
 import Babble.Props.C18
 import Babble.Props.C19
+import Babble.Props.C20
